@@ -650,7 +650,22 @@ pub fn build_object(o: &ObjSpec) -> Result<BuiltObject, String> {
     let cfg = transfer_config(o)?;
     let mut seek_log = None;
     let mut tmp_path = None;
+    // objects of odd length go through the typed-builder front ends (CreateFromBuffer / CreateFromStream /
+    // CreateFromFile, what the flute-sender binary uses), the others through the positional constructors
+    let via_builder = o.data.len() % 2 == 1;
     let desc = match &o.source {
+        SourceSpec::Buffer if via_builder => flute::sender::CreateFromBuffer::builder()
+            .content(o.data.clone()).content_type(o.content_type.clone()).content_location(url.clone()).compute_md5(o.md5).config(cfg).build().create(),
+        SourceSpec::Cursor if via_builder => flute::sender::CreateFromStream::builder()
+            .stream(Box::new(std::io::Cursor::new(o.data.clone()))).content_type(o.content_type.clone()).content_location(url.clone()).compute_md5(o.md5).config(cfg).build().create(),
+        SourceSpec::PathRam | SourceSpec::PathNoRam if via_builder => {
+            let n = TMP_SEQ.fetch_add(1, std::sync::atomic::Ordering::Relaxed);
+            let p = sandbox_dir().join(format!("src-{}-{}.bin", std::process::id(), n));
+            std::fs::write(&p, &o.data).map_err(|e| e.to_string())?;
+            tmp_path = Some(p.clone());
+            flute::sender::CreateFromFile::builder()
+                .path(p).content_location(Some(url.clone())).content_type(o.content_type.clone()).cache_in_ram(o.source == SourceSpec::PathRam).compute_md5(o.md5).config(cfg).build().create()
+        }
         SourceSpec::Buffer => {
             ObjectDesc::create_from_buffer(o.data.clone(), &o.content_type, &url, o.md5, cfg)
         }
